@@ -502,6 +502,13 @@ func raceSingle(vc *VC, ob *Obligation, cfg SolverCfg, fileBase string) *ObResul
 			return r2
 		}
 	}
+	if r.Status != "unsat" && r.Status != "sat" {
+		// the plain form of the query (exactly what the incremental pass poses: hypotheses as generated, no
+		// generator-side instantiation, no slicing) is sometimes the easier one
+		if rp := racePlain(vc, ob, cfg, fileBase+".plain"); rp != nil && rp.Status == "unsat" {
+			return rp
+		}
+	}
 	if r.Status != "unsat" && r.Status != "sat" && os.Getenv("GOVC_NORETRY") == "" {
 		// a solver hiccup (machine load) must not become an alarm: one more attempt with a three-fold cap
 		cfg3 := cfg
@@ -512,6 +519,47 @@ func raceSingle(vc *VC, ob *Obligation, cfg SolverCfg, fileBase string) *ObResul
 		}
 	}
 	return r
+}
+
+// racePlain poses one obligation as a one-shot query over the items exactly as generated.
+func racePlain(vc *VC, target *Obligation, cfg SolverCfg, fileBase string) *ObResult {
+	var b strings.Builder
+	for _, ax := range vc.e.axioms {
+		b.WriteString("(assert " + ax + ")\n")
+	}
+	found := false
+	for _, it := range vc.items {
+		if it.Ob == nil {
+			b.WriteString(it.Text + "\n")
+			continue
+		}
+		if it.Ob == target {
+			b.WriteString("(assert (not " + it.Ob.Term + "))\n(check-sat)\n")
+			found = true
+			break
+		}
+		if it.Ob.Term != "true" {
+			b.WriteString("(assert " + it.Ob.Term + ")\n")
+		}
+	}
+	if !found {
+		return nil
+	}
+	script := finishScript(vc.decls, b.String())
+	file := writeFile(cfg.WorkDir, fileBase+".smt2", script)
+	if os.Getenv("GOVC_KEEP") == "" {
+		defer os.Remove(file)
+	}
+	res := &ObResult{Ob: target, Status: "unknown", SMTHash: hashOf(script), script: script}
+	for _, sd := range solvers[:2] {
+		out, secs := runSolver(sd, file, cfg.TimeoutMS, time.Duration(cfg.TimeoutMS+5000)*time.Millisecond)
+		rs := parseResults(out)
+		if len(rs) > 0 && rs[0] == "unsat" {
+			res.Status, res.Solver, res.Seconds = "unsat", sd.name, secs
+			return res
+		}
+	}
+	return res
 }
 
 func raceSingleOpt(vc *VC, ob *Obligation, cfg SolverCfg, fileBase string, deep bool) *ObResult {
